@@ -9,7 +9,7 @@ Theorem body_correct_gen :
   forall libm avail auto_casts rty lty diff dsel n0 fuel body code s',
   (forall op t, sigil_of_unop op <> None -> avail (KUnOp op t) = false) ->
   lower_body avail auto_casts rty lty fuel body (mklst n0 []) = Ok (code, s') ->
-  wf_body auto_casts rty lty dsel n0 body ->
+  wf_body auto_casts rty lty n0 body ->
   forall fs st st', fresh lty (p_mem st) n0 ->
   sprog gen_optable libm rty lty diff dsel true fs body Exec st = Ok st' ->
   wprog gen_optable libm lty dsel fs code Exec st None = Ok st'.
@@ -45,7 +45,7 @@ Lemma body_example :
   let rty := fun _ : Z => TInt in let lty := fun _ : nat => TInt in let libm := fun (_ : unop) (_ : Z) => 0 in
   exists code s' st',
     lower_body ex_avail true rty lty 20 ex_body (mklst 0 []) = Ok (code, s') /\ length code = 25%nat /\
-    wf_body true rty lty None 0 ex_body /\ fresh lty (p_mem ex_st0) 0 /\
+    wf_body true rty lty 0 ex_body /\ fresh lty (p_mem ex_st0) 0 /\
     sprog gen_optable libm rty lty 0 None true 10 ex_body Exec ex_st0 = Ok st' /\
     p_time st' = 40 /\ p_real st' = 60 /\ length (p_log st') = 5%nat /\ regs (p_mem st') 1011 = VInt 27 /\
     wprog gen_optable libm lty None 10 code Exec ex_st0 None = Ok st'.
@@ -55,17 +55,24 @@ Proof.
     try (vm_compute in El; discriminate).
   destruct (sprog gen_optable (fun _ _ => 0) (fun _ => TInt) (fun _ => TInt) 0 None true 10 ex_body Exec ex_st0) as [st'| | |] eqn:Es;
     try (vm_compute in Es; discriminate).
-  assert (Hwf : wf_body true (fun _ => TInt) (fun _ => TInt) None 0 ex_body).
+  assert (Hwf : wf_body true (fun _ => TInt) (fun _ => TInt) 0 ex_body).
   { unfold wf_body, ex_body.
-    repeat (apply Forall_cons; [split; [|reflexivity]|]); try apply Forall_nil; cbn [snd wf_stmt user var_below v_id];
-      try exact I; try (split; exact I).
-    - split; [exact I|]. split; [reflexivity|]. left. reflexivity.
-    - apply Forall_cons; [split; [reflexivity|split; [reflexivity|eexists; eexists; reflexivity]]|].
-      apply Forall_cons; [split; [reflexivity|split; [reflexivity|eexists; eexists; reflexivity]]|]. apply Forall_nil.
-    - split; [exact I|]. split; [reflexivity|]. left. reflexivity.
-    - split; [exact I|]. split; [reflexivity|]. right. split; reflexivity.
-    - split; [reflexivity|]. split; [reflexivity | exact I].
-    - apply Forall_cons; [split; [reflexivity|split; [reflexivity|eexists; eexists; reflexivity]]|]. apply Forall_nil. }
+    assert (Harg : forall e, wt_pure (fun _ => TInt) (fun _ => TInt) [] e = true -> locals_below 0 e = true ->
+              (exists a ta, classify true (fun _ => TInt) (fun _ => TInt) [] e = Simple a ta) ->
+              wt_pure (fun _ => TInt) (fun _ => TInt) [] e = true /\ locals_below 0 e = true /\
+              exists a ta, classify true (fun _ => TInt) (fun _ => TInt) [] e = Simple a ta) by auto.
+    apply Forall_cons. { cbn [snd wf_stmt]. split; [exact I|]. split; [reflexivity|]. left. reflexivity. }
+    apply Forall_cons. { exact I. }
+    apply Forall_cons. { cbn [snd wf_stmt]. apply Forall_cons; [apply Harg; [reflexivity|reflexivity|eexists; eexists; reflexivity]|].
+                         apply Forall_cons; [apply Harg; [reflexivity|reflexivity|eexists; eexists; reflexivity]|]. apply Forall_nil. }
+    apply Forall_cons. { cbn [snd wf_stmt]. split; [exact I|]. split; [reflexivity|]. left. reflexivity. }
+    apply Forall_cons. { cbn [snd wf_stmt]. split; exact I. }
+    apply Forall_cons. { cbn [snd wf_stmt]. split; [exact I|]. split; [reflexivity|]. right. split; reflexivity. }
+    apply Forall_cons. { cbn [snd wf_stmt]. split; [reflexivity|]. split; [reflexivity | exact I]. }
+    apply Forall_cons. { cbn [snd wf_stmt]. apply Forall_nil. }
+    apply Forall_cons. { exact I. }
+    apply Forall_cons. { cbn [snd wf_stmt]. apply Forall_cons; [apply Harg; [reflexivity|reflexivity|eexists; eexists; reflexivity]|]. apply Forall_nil. }
+    apply Forall_nil. }
   assert (Hfr : fresh (fun _ => TInt) (p_mem ex_st0) 0) by (intros d _; reflexivity).
   exists code, s', st'.
   split; [reflexivity|].
